@@ -8,6 +8,47 @@ structure WF (cfg : Config) : Prop where
   nodup : (cfg.map (·.path)).Nodup
   normal : ∀ t ∈ cfg, Normal t.path
 
+/-- well-formed configuration when target paths may be written with one trailing separator:
+no two targets name the same directory, and every named directory is a normal path -/
+structure WFD (cfg : Config) : Prop where
+  nodup : (cfg.map (fun t => dirOf t.path)).Nodup
+  normal : ∀ t ∈ cfg, Normal (dirOf t.path)
+
+theorem WF.toWFD {cfg : Config} (h : WF cfg) : WFD cfg := by
+  have hmap : cfg.map (fun t => dirOf t.path) = cfg.map (·.path) :=
+    List.map_congr_left (fun t ht => dirOf_normal (h.normal t ht))
+  exact ⟨by rw [hmap]; exact h.nodup, fun t ht => by rw [dirOf_normal (h.normal t ht)]; exact h.normal t ht⟩
+
+theorem WFD.nodupPath {cfg : Config} (h : WFD cfg) : (cfg.map (·.path)).Nodup := by
+  have : cfg.map (fun t => dirOf t.path) = (cfg.map (·.path)).map dirOf := by simp
+  have hn := h.nodup
+  rw [this] at hn
+  exact List.Pairwise.of_map dirOf (fun a b hab heq => hab (by rw [heq])) hn
+
+theorem nodup_map_getElem_inj {α β : Type} {f : α → β} {l : List α} (h : (l.map f).Nodup)
+    {i j : Nat} {a b : α} (hi : l[i]? = some a) (hj : l[j]? = some b) (heq : f a = f b) : i = j := by
+  induction l generalizing i j with
+  | nil => simp at hi
+  | cons x xs ih =>
+    simp only [List.map_cons, List.nodup_cons, List.mem_map, not_exists, not_and] at h
+    cases i with
+    | zero =>
+      cases j with
+      | zero => rfl
+      | succ j =>
+        simp at hi; subst hi
+        simp only [List.getElem?_cons_succ] at hj
+        exact absurd heq.symm (h.1 b (List.mem_of_getElem? hj))
+    | succ i =>
+      cases j with
+      | zero =>
+        simp at hj; subst hj
+        simp only [List.getElem?_cons_succ] at hi
+        exact absurd heq (h.1 a (List.mem_of_getElem? hi))
+      | succ j =>
+        simp only [List.getElem?_cons_succ] at hi hj
+        rw [ih h.2 hi hj]
+
 theorem mem_insertUniq {x y : Nat} {l : List Nat} : y ∈ insertUniq x l ↔ y = x ∨ y ∈ l := by
   induction l with
   | nil => simp [insertUniq]
